@@ -228,6 +228,19 @@ class FractionScalar(AbstractValueWithQuantityObject):
             and self._quantity == other._quantity
         )
 
+    def _GetValuesToCompare(self, other: Any) -> Any:
+        """
+        :returns:
+            This value and the other value expressed in this unit (the order operators compare them;
+            deriving them with `total_ordering` from `<` and the unit-sensitive `==` gave
+            contradictory answers for equal amounts written in different units).
+        """
+        if self.quantity_type != other.quantity_type:
+            msg = "can not compare scalars of different quantity types: %r != %r"
+            raise TypeError(msg % self.quantity_type, other.quantity_type)
+
+        return self._value, other.GetValue(self.unit)
+
     def __lt__(self, other: Any) -> bool:
         """
         Comparison between objects.
@@ -240,13 +253,20 @@ class FractionScalar(AbstractValueWithQuantityObject):
         # this is exactly the same comparison performed by the Scalar, however as they don't share
         # a base class where this method would fit, it was decided to implement it here, instead
         # of creating a base class just because of this method
-        if self.quantity_type != other.quantity_type:
-            msg = "can not compare scalars of different quantity types: %r != %r"
-            raise TypeError(msg % self.quantity_type, other.quantity_type)
-
-        v1 = self._value
-        v2 = other.GetValue(self.unit)
+        v1, v2 = self._GetValuesToCompare(other)
         return v1 < v2
+
+    def __le__(self, other: Any) -> bool:
+        v1, v2 = self._GetValuesToCompare(other)
+        return v1 <= v2
+
+    def __gt__(self, other: Any) -> bool:
+        v1, v2 = self._GetValuesToCompare(other)
+        return v1 > v2
+
+    def __ge__(self, other: Any) -> bool:
+        v1, v2 = self._GetValuesToCompare(other)
+        return v1 >= v2
 
     # RegisterFractionScalarConversion -----------------------------------------
     @classmethod
